@@ -41,6 +41,12 @@ def run(ctx):
     ctx.rule('C06.b-truthful', 'each Error construction is governed by the documented violated precondition and its fields equal the operands of that condition')
     ctx.rule('C06.c-passthrough', 'errors of callees are propagated by bare `?` / tail return, never re-mapped')
     ctx.rule('C06.d-config-handover', 'the counts and shard size stored in the work object (against which indexes and sizes are later checked) are exactly the caller\'s original_count, recovery_count, shard_bytes')
+    ctx.rule('C06.d-store-geometry', 'the shard store rewrites its whole geometry on every resize, so that valid adds after any valid reset index inside the store (clause shared with C04.d)')
+    ctx.rule('C06.e-one-shot-items-validated', 'one-shot encode/decode hand every item of the caller iterators to the validating add_*_shard: no invalid entry is silently skipped (clause shared with C10.b)')
+    from . import c04, c10
+    f0 = ctx.facts(cfgs[0])
+    ctx.guard('C06.analysable', c04.store_resize_complete, ctx, f0, cfgs[0], 'C06.d-store-geometry')
+    ctx.guard('C06.analysable', ctx.shared, {'C10.b-iterators': 'C06.e-one-shot-items-validated', 'C10.b-items-reach-add': 'C06.e-one-shot-items-validated'}, c10.both, ctx, f0, cfgs[0])
     for cfg in cfgs:
         facts = ctx.facts(cfg)
         ctx.guard('C06.analysable', check_taint, ctx, facts, cfg)
@@ -264,17 +270,38 @@ def judge(fn, variant, fields, atoms, cmps, conds, env, RL):
         return 'no governing condition `shard.len() != shard_bytes` over the same operands'
     if variant == 'InvalidShardSize':
         sb = fields.get('shard_bytes')
-        for c, pol in atoms:
-            if pol and isinstance(c, tuple) and c[0] == 'or':
-                parts = []
-                flatten_or(c, parts)
-                zero = any(p == core.norm_bin('Eq', sb, ('const', 0)) for p in parts)
-                odd = any(p in (core.norm_bin('Ne', core.norm_bin('BitAnd', sb, ('const', 1)), ('const', 0)),
-                                core.norm_bin('Ne', ('bin', 'Rem', sb, ('const', 2)), ('const', 0)),
-                                core.norm_bin('Eq', core.norm_bin('BitAnd', sb, ('const', 1)), ('const', 1)),
-                                core.norm_bin('Eq', ('bin', 'Rem', sb, ('const', 2)), ('const', 1))) for p in parts)
-                if zero and odd and len(parts) == 2:
-                    return None
+        Z, NZ = core.norm_bin('Eq', sb, ('const', 0)), core.norm_bin('Ne', sb, ('const', 0))
+        ODD = (core.norm_bin('Ne', core.norm_bin('BitAnd', sb, ('const', 1)), ('const', 0)),
+               core.norm_bin('Ne', ('bin', 'Rem', sb, ('const', 2)), ('const', 0)),
+               core.norm_bin('Eq', core.norm_bin('BitAnd', sb, ('const', 1)), ('const', 1)),
+               core.norm_bin('Eq', ('bin', 'Rem', sb, ('const', 2)), ('const', 1)))
+        EVEN = (core.norm_bin('Eq', core.norm_bin('BitAnd', sb, ('const', 1)), ('const', 0)),
+                core.norm_bin('Eq', ('bin', 'Rem', sb, ('const', 2)), ('const', 0)))
+
+        def ev(c, z, odd):
+            """three-valued: None = does not speak about the reported value"""
+            if isinstance(c, tuple) and c and c[0] in ('and', 'or'):
+                x, y = ev(c[1], z, odd), ev(c[2], z, odd)
+                if c[0] == 'and':
+                    return False if (x is False or y is False) else (True if (x and y) else None)
+                return True if (x is True or y is True) else (False if (x is False and y is False) else None)
+            if isinstance(c, tuple) and c and c[0] == 'un' and c[1] == 'Not':
+                x = ev(c[2], z, odd)
+                return None if x is None else (not x)
+            if c == Z:
+                return z
+            if c == NZ:
+                return not z
+            if c in ODD:
+                return odd
+            if c in EVEN:
+                return not odd
+            return None
+        # truthful iff the site cannot be reached with a valid size (non-zero and even): some governing atom is then false;
+        # and it speaks about nothing else: every assignment that violates the precondition can reach it as far as the size atoms go
+        blocked = any(ev(c, False, False) is (not pol) for c, pol in atoms)
+        if blocked:
+            return None
         return 'no governing condition `shard_bytes == 0 || shard_bytes is odd` over the reported value'
     if variant == 'NotEnoughShards':
         oc, orc, rrc = fields.get('original_count'), fields.get('original_received_count'), fields.get('recovery_received_count')
